@@ -32,6 +32,7 @@ type cenv struct {
 	depth  int
 	where  string
 	facts  *[]*Term
+	prev   *State // state at the loop head (step clauses)
 }
 
 // ld loads a typed value from the current heap and records the Go type invariants of
@@ -749,6 +750,13 @@ func (env *cenv) evalCall(t ECall) cval {
 		n := *env
 		n.cur = env.old
 		return n.eval(t.Args[0])
+	case "prev":
+		if env.prev == nil {
+			env.errf("prev() is only meaningful in a loop step clause")
+		}
+		n := *env
+		n.cur = *env.prev
+		return n.eval(t.Args[0])
 	case "min", "max":
 		a, b := env.unify(env.eval(t.Args[0]), env.eval(t.Args[1]))
 		var lt *Term
@@ -785,7 +793,7 @@ func (env *cenv) evalCall(t ECall) cval {
 	case "base":
 		v := env.eval(t.Args[0])
 		switch v.T.Underlying().(type) {
-		case *types.Slice, *types.Pointer:
+		case *types.Slice, *types.Pointer, *types.Chan:
 			return cval{v: Val{v.v[0]}, T: types.Typ[types.Uintptr]}
 		}
 		if isString(v.T) {
@@ -806,7 +814,40 @@ func (env *cenv) evalCall(t ECall) cval {
 		}
 		T := env.resolveType("knxnet.ServicePackable")
 		return cval{v: Val{e.ghost(env.cur, gkey("lastsend", sock)+"#0", BV(64)), e.ghost(env.cur, gkey("lastsend", sock)+"#1", BV(64))}, T: T}
-	case "nsent", "closed", "nclose", "period":
+	case "lastrecv":
+		v := env.eval(t.Args[0])
+		ct, ok := v.T.Underlying().(*types.Chan)
+		if !ok {
+			env.errf("lastrecv of non-channel")
+		}
+		sl := e.P.lay.slots(ct.Elem())
+		out := make(Val, len(sl))
+		for i, k := range sl {
+			out[i] = e.ghost(env.cur, fmt.Sprintf("%s#%d", gkey("lastrecv", v.v[0]), i), regSort(k))
+		}
+		return cval{v: out, T: ct.Elem()}
+	case "gobj":
+		ks, ok := t.Args[0].(EStr)
+		if !ok {
+			env.errf("gobj needs a kind string")
+		}
+		v := env.eval(t.Args[1])
+		return cval{v: Val{e.ghost(env.cur, gkey(ks.V, v.v[0]), BV(64))}, T: tInt}
+	case "spawnarg":
+		ns, ok := t.Args[0].(EStr)
+		if !ok {
+			env.errf("spawnarg needs a function name string")
+		}
+		i := env.eval(t.Args[1])
+		j := env.eval(t.Args[2])
+		return cval{v: Val{e.ghost(env.cur, fmt.Sprintf("spawnarg:%s#%d.%d", ns.V, i.k.Int64(), j.k.Int64()), BV(64))}, T: tInt}
+	case "gval":
+		s, ok := t.Args[0].(EStr)
+		if !ok {
+			env.errf("gval needs a name string")
+		}
+		return cval{v: Val{e.ghost(env.cur, s.V, BV(64))}, T: types.Typ[types.Int64]}
+	case "nsent", "nrecv", "closed", "nclose", "period":
 		v := env.eval(t.Args[0])
 		ch := v.v[0]
 		switch name {
@@ -1053,6 +1094,9 @@ func (env *cenv) pureMethodCall(sel ESel, argx []Expr) (cval, bool) {
 	if id, ok := sel.X.(EIdent); ok {
 		if _, isVar := env.vars[id.Name]; !isVar {
 			if sp, ok := e.P.ssaPkgs[id.Name]; ok {
+				if _, isFn := sp.Pkg.Scope().Lookup(sel.Sel).(*types.Func); !isFn {
+					return cval{}, false // a type or constant of that package
+				}
 				if fo, ok := sp.Pkg.Scope().Lookup(sel.Sel).(*types.Func); ok {
 					fn := e.P.prog.FuncValue(fo)
 					var args []Val
@@ -1073,6 +1117,13 @@ func (env *cenv) pureMethodCall(sel ESel, argx []Expr) (cval, bool) {
 		return cval{}, false
 	}
 	var args []Val
+	if nt, ok := xv.T.(*types.Named); ok && nt.Obj().Name() == "Socket" && e.rootInKnx() {
+		switch sel.Sel {
+		case "Inbound":
+			o := e.P.lookupIfaceMethodResult(nt, "Inbound")
+			return cval{v: Val{e.c.Apply("sock.inbound", BV(64), xv.v[1])}, T: o}, true
+		}
+	}
 	if _, isI := xv.T.Underlying().(*types.Interface); isI {
 		// dynamic dispatch over the closed world
 		it := xv.T.Underlying().(*types.Interface)
